@@ -21,7 +21,16 @@ fn panic_info() -> String {
 
 /// Runs the real decoder on `data` for `case` and compares with the reference. Returns true if "interesting"
 /// (reference accepted, or rejected for a reason other than plain end-of-buffer).
+/// Set once the cost phase has shown that decoding costs what the input *announces* (or by the driver, for the sanitizer build, after
+/// the native run showed it): the violation is on record, and inputs that announce more than 1 MiB are then left out of the other
+/// families - each of them would cost seconds and gigabytes, thousands of times over.
+pub static COST_BROKEN: std::sync::atomic::AtomicBool = std::sync::atomic::AtomicBool::new(false);
+
 pub fn check_one(case: &Case, data: &[u8], out: &mut Outcome, family: &str) -> bool {
+    if COST_BROKEN.load(std::sync::atomic::Ordering::Relaxed) && refmodel::max_announced(&case.ty, data) > (1 << 20) {
+        out.count("skipped_after_cost_violation_large_announced_size", 1);
+        return false;
+    }
     if cfg!(miri) && refmodel::max_announced(&case.ty, data) > (1 << 16) {
         // Miri really allocates what try_reserve asks for; announced sizes beyond 64 Ki are covered natively / by ASan.
         out.count("skipped_under_miri_large_announced_size", 1);
@@ -410,6 +419,12 @@ pub fn run(p: &Params) -> Outcome {
     let mut total = Outcome::default();
     if p.scale == "native" {
         cost_phase(p, &mut total);
+        if !total.violations.is_empty() {
+            COST_BROKEN.store(true, std::sync::atomic::Ordering::Relaxed);
+        }
+    }
+    if std::env::var_os("VC_COST_BROKEN").is_some() {
+        COST_BROKEN.store(true, std::sync::atomic::Ordering::Relaxed);
     }
     let table = cases();
     let ncases = table.len();
